@@ -7,6 +7,7 @@ is recorded in Shared.trusted and ends up in the evidence file's trusted_base.
 import ast
 import builtins
 import enum
+import itertools
 import json
 import re as _re
 import types
@@ -951,10 +952,12 @@ def str_method(I, s, name, args, kw):
         return str_split(I, s, args, kw)
     if name == 'rsplit':
         return str_rsplit1(I, s, args, kw)
+    if name in ('strip', 'lstrip', 'rstrip') and not args and not kw:
+        return str_strip(I, s, name)
     if name == 'format':
         return I.ctx.fresh('fmt', 'str')
     if name in ('strip', 'lstrip', 'rstrip', 'lower', 'upper', 'replace', 'encode', 'title', 'capitalize'):
-        raise Unsupported(f'str.{name} on a symbolic string')
+        raise Unsupported(f'str.{name} on a symbolic string (with these arguments)')
     if name in ('isdigit', 'isnumeric', 'isalpha', 'isalnum'):
         raise Unsupported(f'str.{name} on a symbolic string')
     if name == 'find':
@@ -964,8 +967,52 @@ def str_method(I, s, name, args, kw):
     raise Unsupported(f'str.{name}')
 
 
+def str_split1(I, s, sep):
+    """s.split(sep, 1) for a symbolic s and a concrete one-character sep: exact (s == a + sep + r with no sep in a)"""
+    ctx = I.ctx
+    st, sp, nosep = s.t, z3.StringVal(sep), nosep_re(sep)
+    key = ('split1', st.get_id(), sep)
+    if key in ctx.memo:
+        i = ctx.memo[key]
+    else:
+        i = ctx.memo[key] = ctx.choose([z3.InRe(st, nosep), z3.Contains(st, sp)], 'split(sep, 1)')
+    if i == 0:
+        return PList([s])
+    a, r = SPLIT_BEFORE(st, sp), SPLIT_AFTER(st, sp)
+    ctx.assume(z3.And(st == z3.Concat(a, sp, r), z3.InRe(a, nosep)))
+    return PList([mk(a, 'str'), mk(r, 'str')])
+
+
+def str_strip(I, s, which):
+    """s.strip() / lstrip() / rstrip() without arguments: s == w1 + t + w2 with w1, w2 whitespace runs (python's isspace set
+    is the regex \\s set; exact on ASCII, block representative elsewhere) and t not starting / ending with whitespace"""
+    ctx = I.ctx
+    ws = _ranges_to_re(_class_ranges('space'))
+    nonws = _ranges_to_re(_negate(_class_ranges('space')))
+    full = z3.Full(z3.ReSort(z3.StringSort()))
+    eps = z3.Re(z3.StringVal(''))
+    key = ('strip', s.t.get_id(), which)
+    if key in ctx.memo:
+        return ctx.memo[key]
+    w1, t, w2 = ctx.fresh('ws_head', 'str'), ctx.fresh('stripped', 'str'), ctx.fresh('ws_tail', 'str')
+    left = which in ('strip', 'lstrip')
+    right = which in ('strip', 'rstrip')
+    core = {('strip'): z3.Union(eps, nonws, z3.Concat(nonws, full, nonws)),
+            ('lstrip'): z3.Union(eps, z3.Concat(nonws, full)),
+            ('rstrip'): z3.Union(eps, z3.Concat(full, nonws))}[which]
+    ctx.assume(z3.And(s.t == z3.Concat(w1.t, t.t, w2.t),
+                      z3.InRe(w1.t, z3.Star(ws)) if left else w1.t == z3.StringVal(''),
+                      z3.InRe(w2.t, z3.Star(ws)) if right else w2.t == z3.StringVal(''),
+                      z3.InRe(t.t, core)))
+    ctx.trust('str.strip()/lstrip()/rstrip(): whitespace = the regex \\s class of the abstract alphabet')
+    ctx.memo[key] = t
+    return t
+
+
 def str_split(I, s, args, kw):
     """s.split(sep) for a symbolic s and a concrete one-character sep: fork on the number of separators (0..2)"""
+    if len(args) == 2 and args[1] == 1 and isinstance(args[0], str) and len(args[0]) == 1 and not kw:
+        return str_split1(I, s, args[0])
     if not args or not isinstance(args[0], str) or len(args[0]) != 1 or len(args) > 1 or kw:
         raise Unsupported('split without a concrete 1-char separator')
     sep = args[0]
@@ -2019,6 +2066,21 @@ def m_filter(I, args, kw):
         keep = I.truthy(x) if f is None else I.truthy(I.call(f, [x], {}))
         if I.ctx.branch(keep):
             out.append(x)
+    return PList(out)
+
+
+@model(itertools.groupby)
+def m_groupby(I, args, kw):
+    """itertools.groupby(iterable, key=None): runs of CONSECUTIVE items with equal keys (as a list of (key, list) pairs)"""
+    seq = list(I.iterate(args[0]))
+    key = kw.get('key', args[1] if len(args) > 1 else None)
+    ks = [x if key is None else I.call(key, [x], {}) for x in seq]
+    out = []
+    for i, (x, k) in enumerate(zip(seq, ks)):
+        if i and I.ctx.branch(I.py_eq(k, ks[i - 1])):
+            out[-1][1].items.append(x)
+        else:
+            out.append((k, PList([x])))
     return PList(out)
 
 
